@@ -3,8 +3,8 @@
 set -e
 cd "$(dirname "$0")"
 export GOFLAGS=-mod=mod GOPROXY=off GOSUMDB=off GOTOOLCHAIN=local
-(cd lean && lake build)
+(cd lean && lake build Csvq && for f in Drivers/C*.lean; do lake build model-$(basename $f .lean | tr A-Z a-z); done)
 cp /repo/go.sum harness/go.sum
-(cd harness && go build -tags verif -o /dev/null .)
+(cd harness && for d in cmd/*/; do go build -tags verif -o /dev/null ./$d; done)
 [ -d extract ] && [ -f extract/go.mod ] && (cd extract && go build -o /dev/null ./...) || true
 echo setup-ok
